@@ -476,6 +476,10 @@ func runC17(ctx *Ctx) error {
 		n = 4000
 	}
 	for k := 0; k < n; k++ {
+		if ctx.Rep.Unlisted() >= 20 {
+			ctx.Rep.Note("stopped generating after 20 unlisted failures")
+			break
+		}
 		c17Run(ctx, idx, ctx.Rand.U64(), "gen")
 		idx++
 	}
